@@ -29,12 +29,6 @@ theorem C05_taskErrors_are_finished_task_exceptions (s : St) (e : Exc) :
   · rintro ⟨tk, htk, h⟩
     exact ⟨tk, htk, by simp [h]⟩
 
-/-- the outcome computed when `manager.run` leaves its wait -/
-def finishOutcome (c : Ctx) (s : St) : Outcome :=
-  match (taskErrors s)[c.pick % (max (taskErrors s).length 1)]? with
-  | some e => if e.isException then .error e else .raised e
-  | none => .value (s.getHid c.P.g.output)
-
 theorem C05_finish_uses_finishOutcome (c : Ctx) (s : St) (obs : List Obs) :
     mgrFinish c s obs = mgrComplete c (cancelTasks s (liveTasks s c.t)) obs (finishOutcome c s) := rfl
 
@@ -93,19 +87,13 @@ theorem C05_plain_error_is_a_required_node_failure (P : Program) (d : DagRef) (v
     (ho : s'.outcome = some o) :
     (∀ e, o = .error e → e.isException = true ∧ FailCause P d val e) ∧
     (∀ e, o = .raised e → CollabFails P e ∨ (e.isException = false ∧ FailCause P d val e)) := by
-  have hinv : PInv P d val s := pinv_live hp h hpending
-  rcases pinv_step hp hinv c (s', obs) hs hor (coreInv_reach h.reach) with ⟨o', ho', hok⟩ | h2
-  · simp only at ho'
-    rw [ho] at ho'; cases ho'
-    constructor
-    · intro e he; subst he; exact ⟨hok.1, hok.2 hsol⟩
-    · intro e he; subst he
-      rcases hok with h1 | ⟨h1, h2⟩
-      · exact Or.inl h1
-      · exact Or.inr ⟨h1, h2 hsol⟩
-  · have := h2.quiet.pend
-    simp only at this
-    rw [ho] at this; cases this
+  have hok := outcome_live (val := val) hp h hpending c hor (s', obs) hs o ho
+  constructor
+  · intro e he; subst he; exact ⟨hok.1, hok.2 hsol⟩
+  · intro e he; subst he
+    rcases hok with h1 | ⟨h1, h2⟩
+    · exact Or.inl h1
+    · exact Or.inr ⟨h1, h2 hsol⟩
 
 /-- with collaborators that do not raise, the cause is a node of the pipeline -/
 theorem C05_plain_error_is_a_node_failure_no_collaborator_faults (P : Program) (d : DagRef) (val : Node → Option Val)
@@ -134,15 +122,9 @@ theorem C05_plain_failure_is_never_masked (P : Program) (d : DagRef) (val : Node
     (hor : OracleOK P s c) (s' : St) (obs : List Obs) (hs : step P s c = some (s', obs)) (v : Val) :
     s'.outcome ≠ some (.value v) := by
   intro ho
-  have hinv : PInv P d val s := pinv_live hp h hpending
-  rcases pinv_step hp hinv c (s', obs) hs hor (coreInv_reach h.reach) with ⟨o', ho', hok⟩ | h2
-  · simp only at ho'
-    rw [ho] at ho'; cases ho'
-    have a : val P.g.output = some v := hok hsol
-    have := val_none_propagates hsol ht hfo hp.outIn _ n hn (Nat.le_refl _) (hfail.val_none hsol hn)
-    rw [a] at this; cases this
-  · have := h2.quiet.pend
-    simp only at this
-    rw [ho] at this; cases this
+  have hok := outcome_live (val := val) hp h hpending c hor (s', obs) hs _ ho
+  have a : val P.g.output = some v := hok hsol
+  have := val_none_propagates hsol ht hfo hp.outIn _ n hn (Nat.le_refl _) (hfail.val_none hsol hn)
+  rw [a] at this; cases this
 
 end MLPE.Eng
